@@ -203,12 +203,57 @@ class SeqNormaliser:
 # remove_unused transparency (R04.a / R12.c)
 
 
+def _post_sort_filter_from_value(sm: SourceModel, f: Func):
+    """The same question answered on what sorted_assignments computes (sa.av): the value is a comprehension over
+    sort_assignments(<input without remove_unused>) whose only condition that mentions remove_unused is
+    `(name not in S) if remove_unused else True` with S a subset of the names of self.intermediates.
+    (ok, reason) or None when the value is not of that form."""
+    from . import av
+
+    try:
+        v = av.AV(sm).returned(f)[0]
+    except Exception:
+        return None
+    inner = av._unwrap_seq(v)
+    if av.has_unk(v) or inner[0] != "comp":
+        return None
+    ru = ("sym", "remove_unused")
+    it = av._unwrap_seq(inner[2])
+    if not (it[0] == "call" and it[1].split(".")[-1] == "sort_assignments"):
+        return None
+    if av._has_term(it, ru):
+        return False, "the input of the topological sort depends on remove_unused: sorting a reduced set can change the relative order of the state derivatives"
+    bv = ("bv", inner[1])
+
+    def names_of_intermediates(S) -> bool:
+        S = av._unwrap_seq(S)
+        while S[0] == "call" and S[1] in ("set", "frozenset", "list", "tuple") and len(S[2]) == 1:
+            S = av._unwrap_seq(S[2][0])
+        return S[0] == "comp" and av.show(av._unwrap_seq(S[2])) in ("self.intermediates",) and S[3] == (("attr", ("bv", S[1]), "name"),)
+
+    for c in inner[4]:
+        if not av._has_term(c, ru):
+            continue
+        if c[0] == "if" and c[1] == ru and c[3] == av.C(True) and c[2][0] == "cmp" and c[2][1] == "not in" and c[2][2] == bv and names_of_intermediates(c[2][3]):
+            continue
+        if c[0] == "if" and c[1] == ru and c[3] == av.C(True) and c[2][0] == "cmp" and c[2][1] == "not in" and c[2][2] == bv:
+            return False, f"the post-sort filter `{av.show(c[2])[:90]}` is not restricted to names of intermediates, so it could drop a state derivative and shift the state slots"
+        return None
+    items = inner[3]
+    if len(items) != 1 or not av._has_term(items[0], bv) or av._has_term(items[0], ru):
+        return None
+    return True, "remove_unused only selects an order-preserving post-sort filter over intermediates"
+
+
 def remove_unused_is_post_sort_filter(sm: SourceModel) -> tuple[bool, str, ast.AST | None]:
     """In ODE.sorted_assignments: does `remove_unused` only select an order-preserving filter that is applied
     *after* the topological sort and that can only drop intermediates?  Returns (ok, reason, node)."""
     f = sm.func("ode.py", f"{MODEL_CLASS}.{ROOT_ACCESSOR}")
     if "remove_unused" not in f.params:
         return True, "sorted_assignments has no remove_unused parameter", None
+    from_value = _post_sort_filter_from_value(sm, f)
+    if from_value is not None:
+        return from_value[0], from_value[1], f.node
     sort_calls = [c for c in ast.walk(f.node) if isinstance(c, ast.Call) and (dotted(c.func) or "").split(".")[-1] == "sort_assignments"]
     if len(sort_calls) != 1:
         return False, f"expected exactly one call of sort_assignments in sorted_assignments, found {len(sort_calls)}", f.node
